@@ -17,13 +17,13 @@ inductive ATy where
 structure Act where
   ty  : ATy
   key : Nat
-  deriving DecidableEq, Repr
+  deriving DecidableEq, Repr, Inhabited
 
 /-- Non-negative fraction `num/den` (den > 0 for well-formed tables). -/
 structure Frac where
   num : Nat
   den : Nat
-  deriving DecidableEq, Repr
+  deriving DecidableEq, Repr, Inhabited
 
 def Frac.lt (a b : Frac) : Bool := a.num * b.den < b.num * a.den
 
